@@ -294,6 +294,21 @@ def run(facts, rep, ctx):
     extraction_rejections(facts, rep, R6, b, where)
     # ---- R16.5 empty bodies ----------------------------------------------------------------------------
     R5 = rep.rule("R16.5", "a zero-length body is accepted wherever it is placed (including at the very end of the data)", floor=1)
+    # bodies fetched with the positional accessor instead of the stream reader: the same question put to it
+    pos_fetch = [t for bb, t in b.calls() if (callee_names(t)[1] or "").endswith("BinArchive::read_bytes") and any(
+        x[0] == "field" and len(x) > 4 and x[4] == ARC_ENTRY for a_ in t["args"][1:] for x in walk(b.term_of_operand(a_)))]
+    if pos_fetch:
+        try:
+            from summ import Evaluator as _Ev2, Ref as _Ref2
+            from c04 import final_outcomes as _fo2
+            pb = facts.body("mila::bin_archive::BinArchive::read_bytes")
+            outs2 = _fo2(_Ev2(facts), facts, pb, [_Ref2({"data": {"len": 8}}), 8, 0]) if pb is not None else None
+            if outs2 and all((o["err"] is True or o["panic"]) and o["definite"] for o in outs2):
+                rep.violation(R5, b.name, "empty-at-end-positional", "file bodies are fetched with BinArchive::read_bytes(address, size), which rejects address == data size even for size 0: an empty file recorded at the very end of the data region fails to extract", "%s:%s" % (b.file, pos_fetch[0]["line"]))
+            elif outs2 and any(o["err"] is False and o["definite"] for o in outs2):
+                rep.ok(R5, {"fn": b.name, "positional read_bytes(size, 0)": "accepted"})
+        except Exception:
+            pass
     rb = facts.body("mila::bin_streams::BinArchiveReader::<'a>::read_bytes")
     if rb is None:
         rep.inconc(R5, "BinArchiveReader::read_bytes missing")
